@@ -85,6 +85,19 @@ def run_witness(w):
         if 'expected_error' in w:
             return True
         return got != core.unjson(w['expected'])
+    if kind == 'decode_steps':
+        # reproduces when decoding does not finish within the C08 step budget
+        from . import monitor
+        from .checks import c08
+        s = _compile(w)
+        data = bytes.fromhex(w['data_hex'])
+        stepper = monitor.StepBudget()
+        try:
+            outcome, _, steps = stepper.call(lambda: s.decode(w['type'], data),
+                                             c08.budget(len(data), w.get('zero_width', False)))
+        finally:
+            stepper.close()
+        return outcome == 'budget'
     if kind == 'text_expect':
         try:
             s = _compile(w)
